@@ -51,6 +51,9 @@ def scenarios(tier):
     # inherited (GNU make style) jobserver: the harness owns the pipes
     L.append((SC.scn("inherit-fan3-n2", w["fan3"], ["redo-ifchange top"], visible=VIS, jobserver=2, limit=2), 1 if q else 2))
     L.append((SC.scn("inherit-cross-n2", w["cross"], ["redo-ifchange p q"], visible=VIS, jobserver=2, limit=2), 1 if q else 2))
+    # an explicit -j1 under a parent jobserver that has spare tokens: the user asked for a serial build, so this redo runs
+    # its own one-token jobserver; the parent's pipe still holds what it held
+    L.append((SC.scn("inherit-n2-explicit-j1-fan3", w["fan3"], ["redo --no-log -j1 top"], visible=VIS, jobserver=2, limit=1), 1))
     # the make parent competes: it may take a token out of the pipe at any step and return it later (forced when
     # nothing else can run) -- "token stolen between select and read", starvation and hand-back paths
     L.append((SC.scn("inherit-fan3-n2-make-competes", w["fan3"], ["redo-ifchange top"], visible=VIS, jobserver=2, limit=2,
